@@ -179,7 +179,63 @@ def formatter_model(facts):
             else:
                 items.append(("raw", classify_component(facts, body, p[1])))
         model.append({"bb": bb, "site": body.site(bb), "atoms": atoms, "loop": loop, "items": items})
-    return {"key": key, "body": body, "emits": model}
+    # `if first { f.write_char(A) } else { f.write_char(B) }` inside a loop  ==  one prefix piece (A on the first item, B on
+    # the later ones), as the loop-carried `prefix` char and the enumerate() form give
+    merged = []
+    i = 0
+    while i < len(model):
+        a = model[i]
+        b = model[i + 1] if i + 1 < len(model) else None
+        if b is not None and a["loop"] is not None and a["loop"] == b["loop"] and len(a["items"]) == 1 and len(b["items"]) == 1 and a["items"][0][0] == "lit" and b["items"][0][0] == "lit" and len(a["items"][0][1]) == 1 and len(b["items"][0][1]) == 1:
+            sa, sb = first_flag_side(body, a["loop"], a["bb"]), first_flag_side(body, b["loop"], b["bb"])
+            if {sa, sb} == {True, False}:
+                fst, rest = (a, b) if sa else (b, a)
+                common = [x for x in a["atoms"] if x in b["atoms"]]
+                merged.append({"bb": a["bb"], "site": a["site"], "atoms": common, "loop": a["loop"], "items": [("prefix", (ord(fst["items"][0][1]), ord(rest["items"][0][1])))]})
+                i += 2
+                continue
+        merged.append(a)
+        i += 1
+    return {"key": key, "body": body, "emits": merged}
+
+
+def first_flag_side(body, h, bb):
+    """Is block bb, inside the loop headed by h, on the `first iteration` side (True) or on the `not the first iteration`
+    side (False) of a loop-carried flag (`let mut first = true; for .. { if first { first = false; A } else { B } }`)?
+    The flag starts true, the loop only ever stores false, it is cleared on the first-iteration side only and on every
+    way from there to the next iteration.  None when there is no such flag.  (The same information as an enumerate()
+    index == 0 / > 0.)"""
+    from . import scanact
+    lb = body.loops().get(h, set())
+    if bb not in lb:
+        return None
+    st = scanact.state_locals(body, lb)
+    for d in sorted(lb):
+        sl = scanact.switch_local(body, d)
+        if sl is None or sl[1] or sl[0] not in st or d == bb or not body.dominates(d, bb):
+            continue
+        F, _, _, neg = sl
+        info = st[F]
+        inside = [scanact.const_state_value(strip(body._rv_term(dd[3]))) for dd in body.defs()[F] if dd[0] in lb and dd[2] == "rv"]
+        if list(info["init"]) != [("bool", True)] or not inside or any(v != ("bool", False) for v in inside):
+            continue
+        edges = {}
+        for (lab, tg) in body.edges(d):
+            if lab == "otherwise" or lab == ("sw", 0):
+                edges[(lab == "otherwise") != neg] = tg
+        tT, tF = edges.get(True), edges.get(False)
+        if tT is None or tF is None or tT == tF:
+            continue
+        single = lambda b_: len([p_ for p_ in body.preds()[b_] if not body.is_cleanup(p_)]) == 1  # noqa: E731
+        defs_in = [dd[0] for dd in body.defs()[F] if dd[0] in lb and dd[2] == "rv"]
+        cleared = single(tT) and all(b_ == tT or body.dominates(tT, b_) for b_ in defs_in) and any(h not in body.reachable_from(tT, avoid={b_}) or b_ == tT for b_ in defs_in)
+        if not cleared:
+            continue
+        if single(tF) and (tF == bb or body.dominates(tF, bb)):
+            return False
+        if tT == bb or body.dominates(tT, bb):
+            return True
+    return None
 
 
 def body_arg(ncall, i):
@@ -670,6 +726,9 @@ def classify_return(n):
             # Err(e) with e the error of a value that `?` produced (`r @ Err(_) => return r` spelled `Err(e) => return Err(e)`,
             # as the model of std's try_fold does): the same as handing that value on
             return classify_return(n[2][0][1])
+        if n[1][2] == "Err" and len(n[2]) == 1 and n[2][0][0] == "err" and n[2][0][1][0] == "call":
+            # `match f(x) { Ok(v) => v, Err(e) => return Err(e) }`: the error of f(x) handed on as it is  ==  f(x)?
+            return ("propagate", n[2][0][1])
         return ("ok" if n[1][2] == "Ok" else "err", n[2][0])
     if n[0] == "agg" and n[1][0] == "adt" and n[1][1] == "std::option::Option":
         return ("some" if n[1][2] == "Some" else "none", n[2][0] if n[2] else None)
@@ -831,8 +890,11 @@ def parser_model(facts):
         path = callee_name(t["callee"])
         args = [norm(body.resolve_operand(a)) for a in t["args"]]
         rec = {"bb": bb, "site": body.site(bb), "path": path, "args": args, "atoms": [a for _, a in atoms_at(body, bb)], "generic": t["callee"].get("trait")}
-        if any(a == ("var", pv, init) or (a[0] == "var" and a[1] == pv) for a in args):
-            rec["takes_parts"] = True
+        def is_parts(a):
+            return a == ("var", pv, init) or (a[0] == "var" and a[1] == pv)
+        if any(is_parts(a) or (a[0] == "field" and a[2] == "qualifiers" and is_parts(a[1])) for a in args):
+            rec["takes_parts"] = True   # the whole accumulator, or just its qualifier list
+            rec["parts_field"] = next(("qualifiers" for a in args if a[0] == "field" and a[2] == "qualifiers" and is_parts(a[1])), None)
         pm["calls"].append(rec)
     for (b, n) in returns(body):
         pm["returns"].append({"bb": b, "site": body.site(b), "cls": classify_return(n), "atoms": [a for _, a in atoms_at(body, b)]})
@@ -1134,8 +1196,13 @@ def _canon_atom(a):
                 return (p.split("::")[-1], _value(it[2][0]), ("bytes", args[1][1]), pos)
         if p in ("std::iter::Iterator::all", "std::iter::Iterator::any") and len(args) == 2 and args[1][0] in ("closure", "fn"):
             it = args[0]
-            while it[0] == "var" and len(it) > 2:
-                it = it[2]
+            for _ in range(4):
+                if it[0] == "var" and len(it) > 2:
+                    it = it[2]
+                elif it[0] == "call" and it[1].endswith("::into_iter") and len(it[2]) == 1 and it[2][0][0] in ("call", "var"):
+                    it = it[2][0]   # `for x in it` reads IntoIterator::into_iter(it), the identity on iterators
+                else:
+                    break
             if it[0] == "call" and it[1] == STR + "chars":
                 return (p.split("::")[-1], _value(it[2][0]), args[1][1], pos)
             # x.split(c).all(str::is_empty): x consists of separators only  ==  x.trim_matches(c).is_empty()
